@@ -749,6 +749,7 @@ static int handleConfigResponse(KSI_HighAvailabilityService *has, KSI_AsyncServi
 	KSI_HighAvailabilityRequest *haRequest = NULL;
 	KSI_Config *pushConf = NULL;
 	bool updated = false;
+	bool answersRequest = false;
 
 	if (has == NULL || respHndl == NULL) {
 		res = KSI_INVALID_ARGUMENT;
@@ -793,6 +794,8 @@ static int handleConfigResponse(KSI_HighAvailabilityService *has, KSI_AsyncServi
 		/* A configuration request is completed by the first configuration received: failures of the
 		 * remaining subservices are reported as error notices, not as a second completion. */
 		if (haRequest->hasReq == false) {
+			/* The first configuration is the answer to the request, whether or not it changes the consolidated values. */
+			answersRequest = (reqState != KSI_ASYNC_STATE_PUSH_CONFIG_RECEIVED);
 			reqHndl->state = KSI_ASYNC_STATE_PUSH_CONFIG_RECEIVED;
 		}
 	}
@@ -831,7 +834,7 @@ static int handleConfigResponse(KSI_HighAvailabilityService *has, KSI_AsyncServi
 			KSI_pushError(has->ctx, res, NULL);
 			goto cleanup;
 		}
-		if (updated == false) goto cleanup;
+		if (updated == false && !answersRequest) goto cleanup;
 	}
 
 	if (confCallback) {
